@@ -31,8 +31,12 @@ def sh(*a, **k):
 
 def prepare(patch):
     if not os.path.isdir(WT):
-        r = sh('git', '-C', '/repo', 'worktree', 'add', '-q', '--detach', WT,
-               'HEAD')
+        for attempt in range(20):
+            r = sh('git', '-C', '/repo', 'worktree', 'add', '-q', '--detach',
+                   WT, 'HEAD')
+            if not r.returncode:
+                break
+            time.sleep(0.3 + 0.1 * attempt)   # concurrent worktree adds
         if r.returncode:
             raise SystemExit(r.stdout)
     sh('git', '-C', WT, 'checkout', '-q', '--detach',
@@ -83,6 +87,9 @@ if __name__ == '__main__':
         props = args[args.index('--props') + 1].split(',')
     t0 = time.time()
     res = run(patch, props)
+    if '--json' in args:
+        print('JSON:' + json.dumps(res))
+        sys.exit(0)
     for pid, (st, items) in sorted(res.items()):
         if st != 'ok':
             for rule, loc, msg in items:
